@@ -61,12 +61,7 @@ func c08NewProxy() (*Proxy, []*c08Backend) {
 	}
 	p.AddItem(&ProxyItem{backend: rb, transports: []ServerTransport{&c08Transport{"UDP"}, &c08Transport{"TCP"}}})
 	// the membership events reach the backend index through the loop goroutine
-	for deadline := time.Now().Add(5 * time.Second); time.Now().Before(deadline); {
-		if len(p.backendChangeChannel) == 0 {
-			break
-		}
-		time.Sleep(50 * time.Microsecond)
-	}
+	patientUntil(5*time.Second, 50*time.Microsecond, func() bool { return len(p.backendChangeChannel) == 0 })
 	time.Sleep(200 * time.Microsecond)
 	return p, bs
 }
@@ -171,12 +166,11 @@ func c08Pipeline(p *Proxy, data []byte, tcp bool, stamp bool, peerIP string, pee
 		}
 		done <- result{""}
 	}()
-	select {
-	case r := <-done:
-		return r.fail
-	case <-time.After(15 * time.Second):
+	r, ok := patientRecv(done, 15*time.Second)
+	if !ok {
 		return "the pipeline did not return within 15 s (wedged: a lock left held or an endless loop)"
 	}
+	return r.fail
 }
 
 // ---- hostile field values ------------------------------------------------------
@@ -556,11 +550,7 @@ func TestC08(t *testing.T) {
 			V.Class("lab: sentinel relayed after hostile batch")
 			if tcpGarbage {
 				// a connection that carried undecodable bytes is closed by the proxy
-				deadline := time.Now().Add(20 * time.Second)
-				for !conn.isDead() && time.Now().Before(deadline) {
-					time.Sleep(200 * time.Microsecond)
-				}
-				if !conn.isDead() {
+				if !patientUntil(20*time.Second, 200*time.Microsecond, conn.isDead) {
 					failf(rt, "a fresh TCP connection that carried one complete undecodable message was not closed within 20 s; batch %v", batch)
 				}
 				V.Class("lab: garbage TCP connection closed")
